@@ -8,6 +8,7 @@
 #include "pv_container.hpp"
 #include "pv_algebra.hpp"
 #include "pv_workflow.hpp"
+#include "pv_container2.hpp"
 #include <boost/mpi.hpp>
 #include <fstream>
 
@@ -37,6 +38,9 @@ int main(int argc, char** argv) {
         if (line.empty()) continue;
         json sc = json::parse(line);
         g_current = sc;
+        // watchdog: a scenario that makes no progress (e.g. a corrupted heap dead-locking in malloc) is killed by SIGALRM
+        // and reported by the caller as a crash in THIS scenario, instead of blocking the whole batch until its time-out
+        { const char* w = getenv("PV_SCEN_TIMEOUT"); alarm(w ? atoi(w) : 600); }
         quiet.reset();
         std::string kind = sc.value("kind", "");
         if (sc.value("log", "") != "last") pv::emit({{"e", "Begin"}, {"id", sc.value("id", json())}});
@@ -48,7 +52,9 @@ int main(int argc, char** argv) {
         else if (kind == "algebra") pv::run_algebra(sc);
         else if (kind == "nsz") pv::run_nsz(sc);
         else if (kind == "workflow") pv::run_workflow(sc);
+        else if (kind == "container2") pv::run_container2(sc);
         else pv::emit({{"e", "Error"}, {"id", sc.value("id", json())}, {"what", "unknown kind"}});
+        alarm(0);
         pv::emit({{"e", "Done"}, {"id", sc.value("id", json())}});
     }
     return 0;
